@@ -7,6 +7,7 @@ import MpireModel.Drive.Apply
 import MpireModel.Drive.Shutdown
 import MpireModel.Drive.GracefulStop
 import MpireModel.Drive.ParamFlow
+import MpireModel.Drive.Insights
 /- One line in, one line out. -/
 namespace Mpire.Drive
 
@@ -44,6 +45,7 @@ def handle (line : String) : String :=
       | "hstop"   => handleHStop fs
       | "gstop"   => handleGStop fs
       | "pflow"   => handlePFlow fs
+      | "insacc"  => handleInsAcc fs
       | _ => none
     r.getD "bad-op"
 
